@@ -192,6 +192,37 @@ def drive(sc: dict):
             value = (fr.functions.objectives if col[0] == "obj" else fr.functions.constraints)[col[1]]
     trace.append({**base, "ev": "CVaR", "via": "e2e", "outcome": outcome, "gradient_at_a_neighbouring_point": True,
                   "w": nums(w) if w is not None else [], "value": num(value)})
+    # -- the BEST successful member is infinitely good (it lies outside the tail, so nothing that is reported changes)
+    succ = [i for i in range(sc["n"]) if not sc["failed"][i]]
+    fl_ = sc["fl"]
+    if len(succ) >= 2 and fl_ != "eq" and sc["k"] * len(succ) <= sc["D"] * (len(succ) - 1) and not sc.get("ulp"):
+        v = np.array(sc["val"], dtype=np.float64)
+        o2 = np.array(sc["o2"], dtype=np.float64)
+        key = v + 2.0 * o2 if sc["multi"] else (-v if fl_ == "objneg" else v)
+        good_low = fl_ in ("obj", "le", "objneg") or sc["multi"]          # worst = largest key (for "ge": smallest)
+        best = min(succ, key=lambda i: key[i]) if good_low else max(succ, key=lambda i: key[i])
+        if sum(1 for i in succ if key[i] == key[best]) == 1:
+            o5 = o.copy(); c5 = None if c is None else c.copy()
+            # (in the driver's columns the judged value sits in objective/constraint column col[1]; "objneg" negates nothing
+            #  here: its evaluator values are val and the weight is negative, so "good" is large there)
+            tgt = o5 if col[0] == "obj" else c5
+            inf = -np.inf if good_low else np.inf
+            if fl_ == "objneg":
+                inf = np.inf
+            tgt[best, col[1] if not sc["multi"] else 0] = inf
+            res, outcome = outcome_of(lambda: ensemble_evaluator(config, TableEvaluator(o5, c5)).calculate(
+                np.zeros(2), compute_functions=True, compute_gradients=False))
+            w = value = None
+            if res is not None:
+                r = res[0]
+                rows = r.realizations.objective_weights if col[0] == "obj" else r.realizations.constraint_weights
+                w = None if rows is None else rows[col[1]]
+                if r.functions is None:
+                    outcome = "nofunctions"
+                else:
+                    value = (r.functions.objectives if col[0] == "obj" else r.functions.constraints)[col[1]]
+            trace.append({**base, "ev": "CVaR", "via": "e2e", "outcome": outcome, "best_member_infinitely_good": True,
+                          "w": nums(w) if w is not None else [], "value": num(value)})
     # -- one combined functions + gradient evaluation in which the perturbed evaluations of every other realization fail:
     #    a realization whose FUNCTION evaluation succeeded stays a successful member for the filter and for the reported value
     ev3 = _PertFail(o, c, parity=(sc["n"] + sc["k"]) % 2)
